@@ -82,7 +82,10 @@ fn check_defs(r: &mut CheckResult, defs: &[(bool, Vec<(String, u16)>)], tag: &st
     let mut src = String::from("pragma solidity 0.8.10;\n");
     let mut starts: Vec<(usize, bool, Vec<u16>)> = vec![]; // (offset of the definition keyword, is_struct, sizes)
     for (k, (is_struct, members)) in defs.iter().enumerate() {
-        let decls: Vec<String> = members.iter().enumerate().map(|(i, (t, _))| format!("    {} m{};", t, i)).collect();
+        // in every fourth definition that is a contract, every second member is declared `immutable` (it occupies its place in the
+        // declared order like any other member as far as the detector's slot model goes)
+        let imm = !*is_struct && k % 4 == 2;
+        let decls: Vec<String> = members.iter().enumerate().map(|(i, (t, _))| if imm && i % 2 == 1 { format!("    {} immutable m{};", t, i) } else { format!("    {} m{};", t, i) }).collect();
         let sizes: Vec<u16> = members.iter().map(|m| m.1).collect();
         if *is_struct {
             if k % 2 == 0 {
